@@ -39,7 +39,7 @@ Lemma hdkey_public_glue :
   GenFields.hdkey_public_assigns = PublicView.hdkey_public_assigns.
 Proof. split; reflexivity. Qed.
 Lemma walletkey_public_glue :
-  GenFields.walletkey_public_copy = PublicView.walletkey_public_copy /\
+  mem GenFields.walletkey_public_copy PublicView.walletkey_public_copies = true /\
   GenFields.walletkey_public_assigns = PublicView.walletkey_public_assigns.
 Proof. split; reflexivity. Qed.
 
